@@ -66,7 +66,7 @@ m = {
  "setup_cmd": "./setup.sh",
  "hooks": {"guard": "cargo features verif / verif_small_buffers",
            "enable": "--features verif_small_buffers (Kani harness crates); the MIR-based checks use the unhooked crate",
-           "baseline_off_cmd": "python3 /verif/lib/baseline.py", "source_commits": ["ecc0424", "2ff211b", "4dd7126", "cb3acb4", "32a0e2f", "e7be6da", "35f1c84"], "add_only": True},
+           "baseline_off_cmd": "python3 /verif/lib/baseline.py", "source_commits": ["ecc0424", "2ff211b", "4dd7126", "cb3acb4", "32a0e2f", "e7be6da", "35f1c84", "b36789d"], "add_only": True},
  "engines": [
   {"name": "E-MIR", "path": "mir/", "serves_properties": sorted(checks),
    "kind_free_text": "bounded symbolic execution of rustc MIR (nightly -Zunpretty=mir of /repo's working tree) into z3 bit-vector terms; verdicts cross-checked on z3 4.8.12 and cvc5; translation validated natively through replay/"},
